@@ -296,14 +296,19 @@ def run(repo, rep):
             for i, e in enumerate(tr):
                 if e.kind == 'put' and e.args and e.args[0].startswith('('):
                     n_put += 1
-                    if not any(cn in ('-self.dimse_decoder.receiving', '+not self.dimse_decoder.receiving',
-                                      '+self.dimse_decoder.receiving is False', '+self.dimse_decoder.receiving == False') for cn in e.conds):
+                    import re as _re
+                    m = _re.match(r'^\((.+)\.msg, (.+)\.pc_id\)$', e.args[0])
+                    dec_term = m.group(1) if m and m.group(1) == m.group(2) else None
+                    bases = {'self.dimse_decoder'} | ({dec_term} if dec_term else set())
+                    if not any(cn in ['-%s.receiving' % b for b in bases] + ['+not %s.receiving' % b for b in bases] +
+                               ['+%s.receiving is False' % b for b in bases] + ['+%s.receiving == False' % b for b in bases]
+                               for cn in e.conds):
                         p4.append('message handed to the user without testing that reassembly is complete')
                     if not any(x.kind == 'process' for x in tr[:i]):
                         p4.append('message handed to the user before the PDU was processed')
                     if not any(x.kind == 'store' and x.args == ('None',) for x in tr[i + 1:]):
                         p4.append('decoder is not reset after delivery: the next message is appended to the old one')
-                    if 'dimse_decoder.msg' not in e.args[0] or 'dimse_decoder.pc_id' not in e.args[0]:
+                    if dec_term is None or not (dec_term == 'self.dimse_decoder' or dec_term.startswith('NEW_DIMSEDecoder')):
                         p4.append('delivered tuple %s is not (decoder.msg, decoder.pc_id)' % e.args[0])
         if n_put == 0:
             p4.append('no delivery of a reassembled message found')
